@@ -96,6 +96,8 @@ def accepting(case):
     from harness import implutil
     from moclo._utils import isabstract
     base = implutil.get_class(case["base"])
+    for sp in case.get("subs", []):
+        implutil.get_class(sp)
     cands = list(base.__subclasses__()) + ([] if isabstract(base) else [base])
     return [c.__name__ for c in cands if c(implutil.mk_circular(case["seq"], "r")).is_valid()]
 
@@ -271,6 +273,32 @@ def run(ctx):
                 seq = gens.instantiate(rng, pattern.tokenize(kit[pick]["structure"], ctx.lettermap), star=(0, 5)) + gens.rand_dna(rng, rng.randrange(0, 5))
                 seq = gens.new_origin(seq, rng.randrange(0, len(seq)))
             ccases.append({"base": {"kind": "kit", "kit": bkit, "name": bname}, "seq": seq, "cands": concrete})
+    # run-time candidate types: a concrete part type and a subclass that only changes the cutter (the same fusion
+    # sites at the next level), or gives another signature — records of either, and junk
+    for rno in range(24 if ctx.quick else 160):
+        role = rng.choice(["module", "vector"])
+        e1, e2 = rng.sample(["BsaI", "BsmBI", "BpiI", "SapI"], 2)
+        if byname[e1]["ovh"] != byname[e2]["ovh"]:
+            continue
+        k = byname[e1]["ovh"]
+        sig = ["".join(rng.choice("ACGT") for _ in range(k)) for _ in range(2)]
+        pname, qname = "RtP%d" % rno, "RtQ%d" % rno
+        parent = {"kind": "part", "role": role, "enzyme": e1, "sig": sig, "name": pname}
+        same_sig = rng.random() < 0.7
+        sig2 = sig if same_sig else ["".join(rng.choice("ACGT") for _ in range(k)) for _ in range(2)]
+        child = {"kind": "sub", "name": qname, "parent": parent, "cutter": e2, "sig": sig2}
+        f = gens.gen_module if role == "module" else gens.gen_vector
+        for which in ("parent", "child", "junk"):
+            if which == "junk":
+                seq = gens.rand_dna(rng, rng.randrange(20, 60))
+            else:
+                enz, sg = (byname[e1], sig) if which == "parent" else (byname[e2], sig2)
+                x = f(rng, enz, sg[0], sg[1], rng.randrange(2, 8), rng.randrange(0, 6))
+                if not x:
+                    continue
+                seq = gens.reorigin(rng, x)
+            ccases.append({"base": parent, "subs": [child], "seq": seq, "cands": [qname, pname], "rt": True,
+                           "tag": "run-time:%s:%s" % ("same-signature-other-cutter" if same_sig else "other-signature", which)})
     cobs = common.run_impl(ctx, "C05", "impl_characterize", ccases)
     cacc = common.run_impl(ctx, "C05", "accepting", ccases)
     cterms, cidx = [], []
@@ -292,6 +320,9 @@ def run(ctx):
                                        "what": "characterize returned %s (valid=%s), candidates %s" % (o["cls"], o["valid"], c["cands"]),
                                        "input": c})
                 continue
+        if c.get("rt"):
+            ctx.count("characterize:" + c["tag"])
+            continue
         exp = None if o["cls"] is None else c["cands"].index(o["cls"])
         cterms.append("([%s], dna \"%s\", %s)" % ("; ".join('kit_cls "%s"' % n for n in c["cands"]), c["seq"],
                                                  "None" if exp is None else "(Some %d)" % exp))
